@@ -73,7 +73,7 @@ static vbi_bool idl_cb(vbi_idl_demux *dx, const uint8_t *buffer, unsigned int n_
 static unsigned idl_a_send(uint8_t pk[42], unsigned ch, unsigned dep, unsigned addr, unsigned ri, unsigned ci,
 			   const uint8_t user[36], unsigned want, const uint8_t fill[36])
 {
-  unsigned w, u = 0, cnt, prev, pend = 0, dlv = 0, reg = 0, j, B, T, reg2;
+  unsigned w, u = 0, cnt, prev, pend = 0, dlv = 0, reg = 0, j, B, T;
   pk[0] = ref_ham8(ch); pk[1] = ref_ham8(15); pk[2] = ref_ham8(FT); pk[3] = ref_ham8((SPALEN) | (dep ? 8 : 0));
   for (j = 0; j < (SPALEN); j++) pk[4 + j] = ref_ham8((addr >> (4 * j)) & 15);
   if (H_RI) pk[OFF_RI] = ri;
@@ -97,34 +97,38 @@ static unsigned idl_a_send(uint8_t pk[42], unsigned ch, unsigned dep, unsigned a
   T = H_CI ? 0 : ci * 0x0101u;
   B = c15_checkword(reg, T);
   pk[40] = B & 0xFF; pk[41] = B >> 8;			/* bit 0 of the check word is transmitted first */
-  /* cut point for the solver (proved, then used): the receiver's register ends at T */
-  reg2 = c15_crc_byte(c15_crc_byte(reg, pk[40]), pk[41]);
-  V_ASSERT(reg2 == T, "lemma_checkword_gives_target_residue");
-  V_ASSUME(reg2 == T);
   return u;
 }
 
-/* Receiver side of the check word, bit serial: register after all 42 bytes.  In lock step the recurrence the
-   library uses (with the library's table) is shown equal at every byte: cut points that are proved, then assumed;
-   they let the SAT solver match the demux' own computation without reasoning about CRC linearity. */
+/* Receiver side of the check word, bit serial: register after all 42 bytes. */
 static unsigned idl_a_residue(const uint8_t pk[42])
 {
-  unsigned reg = 0, c = 0, j;
-  for (j = OFF_CRC0; j < 42; j++) {
-    reg = c15_crc_byte(reg, pk[j]);
-#ifndef NO_LEMMA_CHAIN
-    c = (c >> 8) ^ idl_a_crc_table[(c & 0xFF) ^ pk[j]];
-    V_ASSERT(c == reg, "lemma_table_step_equals_bit_serial");
-    V_ASSUME(c == reg);
-#endif
-  }
+  unsigned reg = 0, j;
+  for (j = OFF_CRC0; j < 42; j++) reg = c15_crc_byte(reg, pk[j]);
   return reg;
 }
-static int idl_a_check_ok(const uint8_t pk[42])
+/* CRC abstraction (CBMC build only, compositional step).
+ * The demux computes  crc' = (crc >> 8) ^ idl_a_crc_table[(crc & 0xFF) ^ byte]  from 0 over bytes OFF_CRC0..41 and
+ * then only looks at "crc == 0" (explicit CI) resp. "both bytes of crc equal, value = CI" (implicit CI).
+ * Obligation idl_crc_step shows, with the table the real init function built, that one such step equals 8 steps
+ * of the bit serial reference for EVERY register value and byte; by induction the demux' crc is the reference
+ * residue of the packet.  256-way table lookups at ~40 data dependent indices per packet are what made every
+ * end-to-end query with the real table run out of the time cap (measured, see report), so here the table is
+ * replaced, per packet, by a constant table K that makes the recurrence end in the same class as the reference
+ * residue `res`:  ok, explicit: K = 0 -> crc 0;  ok, implicit CI v: K = v << 8 -> crc = v * 0x0101;
+ * not ok: K = 1 -> crc = 1 (non-zero, bytes differ).  The native replay build keeps the REAL table, so every
+ * counterexample is re-validated against the unabstracted code. */
+static vbi_bool idl_feed(const uint8_t pk[42], int ok, unsigned res)
 {
-  unsigned res = idl_a_residue(pk);
-  return H_CI ? (res == 0) : ((res >> 8) == (res & 0xFF));
+#if defined(VERIF_CBMC) && !defined(REAL_CRC_TABLE)
+  unsigned K = ok ? ((res & 0xFF) << 8) : 1, x;
+  for (x = 0; x < 256; x++) idl_a_crc_table[x] = (uint16_t) K;
+#else
+  (void) ok; (void) res;
+#endif
+  return vbi_idl_demux_feed(&DX, pk);
 }
+#define RES_OK(res) (H_CI ? ((res) == 0) : (((res) >> 8) == ((res) & 0xFF)))
 
 /* first 7 user bytes equal v and an 8th byte follows */
 static int starts_with_7(const uint8_t user[36], unsigned n, unsigned v)
@@ -196,7 +200,7 @@ V_HARNESS(h_idl_a_seq)
   V_ASSERT(r, "idl_init_ok");
   f_slot = in_u8(); f_pos = in_u8(); f_mask = in_u8();
   for (k = 0; k < NPK; k++) {
-    unsigned n = 0; int faulty = (f_slot == k && f_mask != 0), match, ok = 1;
+    unsigned n = 0, res; int faulty = (f_slot == k && f_mask != 0), match, ok = 1;
     read_slot(&S);
     if (H_RI) V_ASSUME(S.ri == 0x00);			/* first and only transmission; repeats: h_idl_a_repeat */
     if (!H_DL) S.want = 36;
@@ -208,7 +212,7 @@ V_HARNESS(h_idl_a_seq)
       for (i = 0; i < 42; i++) pk[i] = S.raw[i];
       pk[1] = ref_ham8(UNREL_DESIGNATION);
       if (UNREL_DESIGNATION == 15) { pk[0] = ref_ham8(chan); pk[2] = ref_ham8(UNREL_FT); }
-      r = vbi_idl_demux_feed(&DX, pk);
+      r = vbi_idl_demux_feed(&DX, pk);		/* returns before the check word is looked at */
       V_ASSERT(r || UNREL_DESIGNATION != 15, "idl_unrelated_ignored");
       V_ASSERT(cb_n == exp_n, "idl_unrelated_not_delivered");
     }
@@ -218,10 +222,10 @@ V_HARNESS(h_idl_a_seq)
       V_ASSUME(f_pos >= OFF_CRC0 && f_pos < 42);
       for (i = OFF_CRC0; i < 42; i++) if (i == f_pos) pk[i] ^= (uint8_t) f_mask;	/* header bytes stay concrete */
     }
-    ok = idl_a_check_ok(pk);
+    res = idl_a_residue(pk); ok = RES_OK(res);
     if (faulty) V_ASSUME(!ok); else V_ASSERT(ok, "ref_sender_receiver_agree");
 
-    r = vbi_idl_demux_feed(&DX, pk);
+    r = idl_feed(pk, ok, res);
 
     if (!match) {
       V_ASSERT(r, "idl_other_address_ignored");
@@ -233,7 +237,6 @@ V_HARNESS(h_idl_a_seq)
       unsigned fl = ((m_lost || (m_ci >= 0 && m_ci != (int) S.ci)) ? VBI_IDL_DATA_LOST : 0) | (S.dep ? VBI_IDL_DEPENDENT : 0);
       V_ASSERT(r, "idl_good_packet_returns_true");
       expect_delivery(S.user, n, fl);
-      if (fl & VBI_IDL_DATA_LOST) V_REACH("lost");
       m_lost = 0; m_ci = (int) ((S.ci + 1) & 0xFF);
     }
     V_ASSERT(cb_n == exp_n, "idl_delivered_iff_ours_and_intact");
@@ -257,10 +260,24 @@ V_HARNESS(h_idl_crc_table)
   V_END();
 }
 
+/* ---- 2b. one step of the table driven recurrence == 8 bit serial steps, for every register value and byte ---- */
+V_HARNESS(h_idl_crc_step)
+{
+  unsigned c, b, lib, ref; vbi_bool r;
+  V_INIT();
+  r = _vbi_idl_demux_init(&DX, _VBI_IDL_FORMAT_A, 0, 0, idl_cb, &cb_n);
+  V_ASSERT(r, "idl_init_ok");
+  c = in_u16(); b = in_u8();
+  lib = (c >> 8) ^ idl_a_crc_table[(c & 0xFF) ^ b];		/* the expression of idl_a_demux_feed(), line 116 */
+  ref = c15_crc_byte(c, b);
+  V_ASSERT(lib == ref, "idl_crc_table_step_equals_bit_serial");
+  V_END();
+}
+
 /* ---- 3. first delivery after construction on dirty memory (vbi_idl_a_demux_new uses malloc) ---- */
 V_HARNESS(h_idl_a_first_flags)
 {
-  unsigned chan, addr, n; static struct slot_in S; uint8_t pk[42]; vbi_bool r;
+  unsigned chan, addr, n, res; static struct slot_in S; uint8_t pk[42]; vbi_bool r;
   V_INIT();
   in_bytes(&DX, sizeof DX);					/* what malloc() returned */
   chan = in_u8() & 15; addr = in_u32() & ADDRMASK;
@@ -272,8 +289,9 @@ V_HARNESS(h_idl_a_first_flags)
   V_ASSUME(S.want <= 36);
   n = idl_a_send(pk, chan, S.dep, addr, S.ri, S.ci, S.user, S.want, S.fill);
   slot_claim(&S, n);
-  V_ASSERT(idl_a_check_ok(pk), "ref_sender_receiver_agree");
-  r = vbi_idl_demux_feed(&DX, pk);
+  res = idl_a_residue(pk);
+  V_ASSERT(RES_OK(res), "ref_sender_receiver_agree");
+  r = idl_feed(pk, 1, res);
   V_ASSERT(r && cb_n == 1, "idl_first_packet_delivered");
   /* nothing can have been lost before the first packet; only documented flag bits */
   V_ASSERT((cb_log[0].flags & ~(unsigned) (VBI_IDL_DATA_LOST | VBI_IDL_DEPENDENT)) == 0, "idl_first_flags_documented_bits_only");
@@ -287,7 +305,7 @@ V_HARNESS(h_idl_a_first_flags)
  * or not decodable (must be refused: FALSE, nothing delivered, demux state untouched). */
 V_HARNESS(h_idl_a_hamming)
 {
-  unsigned chan, addr, n, p, i; static struct slot_in S; uint8_t pk[42], pk2[42]; vbi_bool r;
+  unsigned chan, addr, n, p, i, res; static struct slot_in S; uint8_t pk[42], pk2[42]; vbi_bool r;
   V_INIT();
   chan = in_u8() & 15; addr = in_u32() & ADDRMASK;
   r = _vbi_idl_demux_init(&DX, _VBI_IDL_FORMAT_A, chan, addr, idl_cb, &cb_n);
@@ -298,7 +316,8 @@ V_HARNESS(h_idl_a_hamming)
   V_ASSUME(S.want <= 36);
   n = idl_a_send(pk, chan, S.dep, addr, S.ri, S.ci, S.user, S.want, S.fill);
   slot_claim(&S, n);
-  V_ASSERT(idl_a_check_ok(pk), "ref_sender_receiver_agree");
+  res = idl_a_residue(pk);
+  V_ASSERT(RES_OK(res), "ref_sender_receiver_agree");
   for (p = 0; p < 4 + (SPALEN); p++) {
     uint8_t v = in_u8(); int d = ref_unham8(v), d0 = ref_unham8(pk[p]);
     unsigned before = cb_n; int o_ci, o_ri; unsigned o_fl;
@@ -307,7 +326,7 @@ V_HARNESS(h_idl_a_hamming)
     o_ci = DX.ci; o_ri = DX.ri; o_fl = DX.flags;
     for (i = 0; i < 42; i++) pk2[i] = pk[i];
     pk2[p] = v;
-    r = vbi_idl_demux_feed(&DX, pk2);
+    r = idl_feed(pk2, 1, res);
     if (d < 0) {
       V_ASSERT(!r, "idl_uncorrectable_returns_false");
       V_ASSERT(cb_n == before, "idl_uncorrectable_not_delivered");
@@ -345,17 +364,18 @@ V_HARNESS(h_idl_a_repeat)
   B.ci = (A.ci + 1) & 0xFF;					/* consecutive packets of the service */
   for (k = 0; k < 3; k++) { st[k] = in_u8() % 3; f_pos[k] = in_u8(); f_mask[k] = in_u8(); }	/* 0 clean 1 damaged 2 lost */
   for (k = 0; k < 3; k++) {
-    unsigned n;
+    unsigned n, res;
     if (k < 2) { n = nA = idl_a_send(pk, chan, A.dep, addr, k == 0 ? 0x80 : 0x01, A.ci, A.user, A.want, A.fill); slot_claim(&A, n); }
     else { n = nB = idl_a_send(pk, chan, B.dep, addr, 0x00, B.ci, B.user, B.want, B.fill); slot_claim(&B, n); }
     if (st[k] == 1) {
       unsigned q;
       V_ASSUME(f_pos[k] >= OFF_CRC0 && f_pos[k] < 42 && f_mask[k] != 0);
       for (q = OFF_CRC0; q < 42; q++) if (q == f_pos[k]) pk[q] ^= (uint8_t) f_mask[k];
-      V_ASSUME(!idl_a_check_ok(pk));
-    } else V_ASSERT(idl_a_check_ok(pk), "ref_sender_receiver_agree");
+      res = idl_a_residue(pk);
+      V_ASSUME(!RES_OK(res));
+    } else { res = idl_a_residue(pk); V_ASSERT(RES_OK(res), "ref_sender_receiver_agree"); }
     if (st[k] != 2) {
-      r = vbi_idl_demux_feed(&DX, pk);
+      r = idl_feed(pk, st[k] != 1, res);
       if (st[k] == 1) V_ASSERT(!r, "idl_crc_failure_returns_false");
       else V_ASSERT(r, "idl_good_packet_returns_true");
     }
